@@ -7,7 +7,7 @@
     ended; [observe] = every table's rows in storage order; [wf] = table keys are distinct.
     [known_class log o = true] iff [m > 0] or some firing before the failure may have left an effect. *)
 From Coq Require Import List ZArith Bool.
-From VibeSQL Require Import Store.Trigger Store.Atomic Store.AtomicLaws.
+From VibeSQL Require Import Store.Trigger Store.Atomic Store.AtomicLaws Store.AppliedLaws.
 Import ListNotations.
 
 (** the property, with the exact side condition *)
@@ -43,16 +43,50 @@ Theorem C11_insert_batch_path_atomic : forall f ctx d t ok rows d' log o tb,
 Proof. exact exec_insert_no_triggers_atomic. Qed.
 Print Assumptions C11_insert_batch_path_atomic.
 
-(** successful multi-row statements apply all of their rows.  PARTIAL: proved for INSERT ... VALUES on the batch
-    path (no INSERT trigger on the table); for the per-row path, UPDATE and DELETE the statement is only checked by
-    the harness oracle on the implementation and by the model comparison. *)
-Theorem C11_ok_multirow_all_applied_partial : forall f ctx d t rows d' log n tb,
+(** successful multi-row statements apply all of their rows.  Side conditions: no trigger body executed by the
+    statement touches the statement's own table ([frame_on f t]; otherwise "its rows" is not well defined), table keys
+    are distinct, and for UPDATE / DELETE the table has no foreign key onto itself (referential actions could then
+    rewrite the table under the statement). *)
+Theorem C11_ok_insert_all_applied : forall f ctx d t tb rows d' log n vrows,
+  exec (S f) ctx d (SInsert t true rows) = (d', log, Ok n) -> frame_on f t ->
+  get_table d t = Some tb -> validate_rows d tb ctx rows 0 [] = inr vrows ->
+  exists tb', get_table d' t = Some tb' /\ tb_rows tb' = tb_rows tb ++ vrows /\ n = length vrows.
+Proof. exact exec_insert_all_applied. Qed.
+Print Assumptions C11_ok_insert_all_applied.
+
+(** ... and without any side condition on the batch path (no INSERT trigger on the table) *)
+Theorem C11_ok_insert_batch_all_applied : forall f ctx d t rows d' log n tb,
   exec (S f) ctx d (SInsert t true rows) = (d', log, Ok n) ->
   get_table d t = Some tb -> triggers_for_table (d_trigs d) t EvInsert = [] ->
   exists vrows tb', validate_rows d tb ctx rows 0 [] = inr vrows /\ n = length vrows /\ length vrows = length rows
                     /\ get_table d' t = Some tb' /\ tb_rows tb' = tb_rows tb ++ vrows.
 Proof. exact insert_ok_all_applied. Qed.
-Print Assumptions C11_ok_multirow_all_applied_partial.
+Print Assumptions C11_ok_insert_batch_all_applied.
+
+Theorem C11_ok_update_all_applied : forall f ctx d t asg w d' log n tb,
+  exec (S f) ctx d (SUpdate t asg w) = (d', log, Ok n) -> frame_on f t ->
+  wf d -> get_table d t = Some tb -> references t tb = [] ->
+  exists d1 ups tb',
+    update_plan ctx d1 tb asg w = inr ups /\ get_table d1 t = Some tb
+    /\ n = length ups
+    /\ get_table d' t = Some tb' /\ tb_rows tb' = apply_all ups (tb_rows tb)
+    /\ length (tb_rows tb') = length (tb_rows tb)
+    /\ (forall u, In u ups -> nth_error (tb_rows tb) (fst (fst u)) = Some (snd (fst u))
+                             /\ nth_error (tb_rows tb') (fst (fst u)) = Some (snd u))
+    /\ (forall j, (forall u, In u ups -> fst (fst u) <> j) -> nth_error (tb_rows tb') j = nth_error (tb_rows tb) j)
+    /\ (forall fi, In fi log -> t_gran (f_trig fi) = GRow ->
+                   exists u, In u ups /\ f_old fi = Some (snd (fst u)) /\ f_new fi = Some (snd u)).
+Proof. exact exec_update_all_applied. Qed.
+Print Assumptions C11_ok_update_all_applied.
+
+Theorem C11_ok_delete_all_applied : forall f ctx d t w d' log n tb,
+  exec (S f) ctx d (SDelete t w) = (d', log, Ok n) -> frame_on f t ->
+  wf d -> get_table d t = Some tb -> references t tb = [] ->
+  exists tb', get_table d' t = Some tb'
+    /\ tb_rows tb' = map snd (filter (fun ir => negb (selected ctx w ir)) (indexed 0 (tb_rows tb)))
+    /\ n = length (filter (selected ctx w) (indexed 0 (tb_rows tb))).
+Proof. exact exec_delete_all_applied. Qed.
+Print Assumptions C11_ok_delete_all_applied.
 
 (** the known classes: one witness each (failure site, writes not undone) *)
 Theorem C11_insert_after_row_trigger_refuted : exists d st, wf d /\ changed_after_error d st (AtAfterRow 1) 1.
